@@ -252,7 +252,7 @@ package shaping
 // Shape: for ANY run bounds (negative, reversed, beyond the text) the text handed to HarfBuzz satisfies AddRunes'
 // precondition (call-pre obligation), and the output reports exactly the requested rune range, face and size.
 // Everything HarfBuzz does in between is unknown to this proof (the heap is havocked by the calls).
-//@ func HarfbuzzShaper.Shape C01 C13
+//@ func HarfbuzzShaper.Shape C01 C13 C12
 //@   mode bv
 //@   requires [face] input.Face != nil
 //@   ensures [requested-range] result.Runes.Offset == input0.RunStart && result.Runes.Count == input0.RunEnd - input0.RunStart
@@ -261,6 +261,9 @@ package shaping
 //   C13 ("a shaper that has been used before returns exactly what a fresh one returns"): the harfbuzz.Font handed to
 //   HarfBuzz is one built from THIS face, whatever the font cache holds.
 //@   assert_at call Shape#1 : [font-of-this-face] font.Face() == input.Face
+//   C12 (line bounds): the font extents are taken for the direction of the OUTPUT run (vertical again for a sideways
+//   run, which is shaped horizontally in between)
+//@   assert_at call ExtentsForDirection#1 : [extents-for-output-direction] arg1 == out.Direction.Harfbuzz()
 //@   assert_at call Shape#1 : [font-scaled-for-this-size] font.XScale == int32(input.Size.Ceil())<<scaleShift && font.YScale == font.XScale
 //
 // The font cache: frames only (the list/map invariants are not stated).
@@ -636,6 +639,7 @@ package shaping
 //@   loop 2 invariant [this-input] 0 <= rangeindex && rangeindex < len(seg.input) && input.RunStart == seg.input[rangeindex].RunStart && input.RunEnd == seg.input[rangeindex].RunEnd
 //@   loop 2 invariant [grows] len(seg.output) >= old(len(seg.output)) + rangeindex
 //@   loop 2 invariant [table-of-this-script] vo.script == input.Script
+//@   loop 2 invariant [progression-kept] currentInput.Direction.Progression() == input.Direction.Progression()
 //@   loop 2 invariant [uniform-so-far] forall(p, currentInput.RunStart, i, orientOf(vo, currentInput.Text[p]) == currentInput.Direction.IsSideways())
 //@   loop 2 invariant [chain] implies(inputsContiguous(seg.input), forall(m, old(len(seg.output)), len(seg.output)-1, seg.output[m].RunEnd == seg.output[m+1].RunStart))
 //@   loop 2 invariant [tail] implies(inputsContiguous(seg.input), (len(seg.output) == old(len(seg.output)) && rangeindex == 0 && currentInput.RunStart == input.RunStart) || (len(seg.output) > old(len(seg.output)) && seg.output[len(seg.output)-1].RunEnd == currentInput.RunStart && seg.output[old(len(seg.output))].RunStart == seg.input[0].RunStart))
